@@ -130,6 +130,9 @@ func worldName(cfg drv.Config) string {
 	if cfg.HostBucket {
 		s += "+host"
 	}
+	if len(cfg.HostBases) > 0 {
+		s += "+bases"
+	}
 	if cfg.FailOnUnimplPage {
 		s += "+pagefail"
 	}
